@@ -31,6 +31,10 @@ def run(rep, tier):
     if sites:
         common.guarded(rep, "C04.4", c04.c04_4, rep, ix, sites)
     common.guarded(rep, "C04.7", c04.c04_7, rep, ix)
+    # the included file is loaded as a program of its own: nothing of it stays in the module tables of the including load, and it sees none of them
+    from . import c05
+    from ..gram import model as gm
+    c05.shared_tables(rep, ix, gm.Grammar(gm.read(gm.FILES["g4"], rep)))
 
 
 # ---------------------------------------------------------------------------------------- helpers
